@@ -65,6 +65,9 @@ class Script:
         idle = r.choice([60.0, 60.0, 5.0, 0.7, 0.25])
         co = {"idle_timeout": idle}
         so = {"idle_timeout": r.choice([60.0, idle, 1.5])}
+        if plan and plan[0][0] == "options":
+            co = {"idle_timeout": plan[0][2]}
+            so = {"idle_timeout": plan[0][3]}
         self.mon = IC.CloseMonitor()
         self.sim = IC.CSim(seed, client_options=co, server_options=so, monitors=[self.mon])
         self.mon.attach(self.sim)
@@ -85,7 +88,9 @@ class Script:
         self.acts.append(a)
         verb, who = a[0], a[1]
         ep = self.ep(who) if who else None
-        if verb == "connect":
+        if verb == "options":
+            pass            # consumed by __init__
+        elif verb == "connect":
             sim.connect()
         elif verb == "net":
             for _ in range(a[2]):
@@ -118,11 +123,12 @@ class Script:
             if a[3]:
                 sim.transmit(ep)
         elif verb == "inject":
-            _, _, epoch, payload, reserved = a
+            _, _, epoch, payload, reserved = a[:5]
+            pad_to = a[5] if len(a) > 5 else None
             if reserved:
                 sim.flip_reserved = True
             try:
-                self.inject.inject(sim, ep, payload, epoch=epoch)
+                self.inject.inject(sim, ep, payload, epoch=epoch, pad_to=pad_to)
             except Exception as e:  # crafting problem, not the implementation's
                 self.acts.append(("inject-failed", who, repr(e)))
             sim.flip_reserved = False
@@ -132,6 +138,28 @@ class Script:
             self.IC.raw_deliver(sim, sim.client, self.IC.retry_datagram(sim, a[2]))
         elif verb == "garbage":
             self.IC.raw_deliver(sim, ep, a[2])
+        elif verb == "serve-one":
+            # only the first datagram addressed to the server arrives; everything
+            # else (and every answer) is lost
+            for d in list(sim.pending):
+                if d["dst"] is sim.server:
+                    sim.pending.remove(d)
+                    sim.now += 0.001
+                    sim.deliver(d)
+                    break
+            sim.pending.clear()
+        elif verb == "drain-budget":
+            # total blackout: the probe timer of `who` expires again and again
+            # (retransmissions) until the 3x anti-amplification budget of its
+            # unvalidated path is used up or `a[2]` probes went unanswered
+            for _ in range(a[2]):
+                sim.pending.clear()
+                paths = ep.conn._network_paths
+                if paths and not paths[0].is_validated and paths[0].bytes_received * 3 - paths[0].bytes_sent < 40:
+                    break
+                if not sim.fire_timer(ep):
+                    break
+            sim.pending.clear()
         elif verb == "blackout":
             sim.pending.clear()
             self.blackout = a[2]
@@ -504,6 +532,22 @@ def small_scope_plans(F):
     plans.append([("close", "client", (0, None, ""), False), ("connect", None), ("fair", None, 10)])
     plans.append([("close", "server", (0, None, ""), False), ("connect", None), ("fair", None, 10)])
     plans.append([("prestart", "client", True), ("prestart", "server", True), ("connect", None), ("fair", None, 10)])
+    # close started during a blackout, after unanswered probes (the closing period
+    # must still be three *base* probe timeouts) and with the server's 3x
+    # anti-amplification budget used up (no closing packet can be written, the
+    # closing period must start all the same).  Kept at the END: the quick tier
+    # always runs the last 20 plans.
+    for cl in ((0, None, ""), (10, 0, "x")):
+        plans.append([("options", None, 60.0, 60.0), ("connect", None), ("serve-one", None), ("drain-budget", "server", 8),
+                      ("close", "server", cl, True)])
+        plans.append([("options", None, 60.0, 60.0), ("connect", None), ("blackout", None, 100), ("drain-budget", "client", 3),
+                      ("close", "client", cl, True)])
+    plans.append([("options", None, 60.0, 60.0), ("connect", None), ("serve-one", None), ("drain-budget", "server", 8),
+                  ("inject", "client", "INITIAL", b"\x3f", False, 1200)])
+    plans.append([("options", None, 60.0, 60.0), ("connect", None), ("serve-one", None), ("drain-budget", "server", 8),
+                  ("inject", "client", "INITIAL", F.enc_close(10, 6, b"bye"), False, 1200)])
+    plans.append([("options", None, 60.0, 60.0), ("connect", None), ("serve-one", None), ("drain-budget", "server", 2),
+                  ("close", "server", (0, None, ""), True)])
     return plans
 
 
